@@ -38,7 +38,7 @@ Begin == /\ Ev.ev = "Begin" /\ ~running /\ running' = TRUE /\ budget' = Ev.budge
          /\ uni' = (IF "uniform" \in DOMAIN Ev THEN Ev.uniform ELSE FALSE) /\ cmax' = (IF "cmax" \in DOMAIN Ev THEN Ev.cmax ELSE 0) /\ last' = 0
 Clock == /\ Ev.ev = "Clock" /\ running
          /\ deadline' = IF deadline = -1 THEN Ev.t + budget ELSE deadline          \* the first read fixes the deadline
-         /\ over' = (over \/ (deadline # -1 /\ Ev.t >= deadline))
+         /\ over' = (over \/ (deadline # -1 /\ Ev.t >= deadline) \/ (deadline = -1 /\ budget = 0))   \* (a zero budget is used up at the first read)
          /\ idle' = IF deadline # -1 /\ Ev.t < deadline THEN idle + 1 ELSE idle
          /\ maxidle' = IF idle' > maxidle THEN idle' ELSE maxidle
          /\ last' = Ev.t
